@@ -102,20 +102,22 @@ theorem lockEnter_deps_done {fl : Flags} (hfl : fl.readyGuarded = true) {totals 
 
 /-! ### the hypotheses are satisfiable: a concrete run of the current flags -/
 
-/-- job 1 depends on job 0 and on a token; after these events job 0 is done and job 1 is at `lockEnter`. -/
-def exEvs : List Ev := [.submit 0 [] 0 false, .submit 1 [.job 0, .tok 0 1] 0 false, .step, .step,
-  .deliver 0, .step, .deliver 0, .step, .deliver 0, .step, .deliver 0, .step, .step, .step, .deliver 0]
-def exS : St := run Gen.schedFlags (St.init [2]) exEvs
-
-example : Reachable Gen.schedFlags [2] exS := ⟨exEvs, rfl⟩
-example : ReachableOK Gen.schedFlags [2] (run Gen.schedFlags (St.init [2]) (exEvs.take 2)) :=
-  .step _ (.step _ .init (by decide)) (by decide)
+/-- `exS` (`Proofs/SchedDeps.lean`): job 1 depends on job 0 and on a token; job 0 is done, job 1 at `lockEnter`. -/
+example : Reachable flOK [2] exS := ⟨exEvs, rfl⟩
+/-- the theorems apply to the flags of the current source. -/
+example : Gen.schedFlags = flOK ∧ Gen.schedFlags.readyGuarded = true := by decide
+/-- the two submissions are well-formed events (`EvOK`): earlier job, existing token, positive count. -/
+example : ReachableOK Gen.schedFlags [2] (((St.init [2]).apply Gen.schedFlags (.submit 0 [] 0 false)).apply
+    Gen.schedFlags (.submit 1 [.job 0, .tok 0 1] 0 false)) :=
+  .step (.submit 1 [.job 0, .tok 0 1] 0 false)
+    (.step (.submit 0 [] 0 false) .init (by intro o ho; simp at ho))
+    (by intro o ho; simp at ho; rcases ho with rfl | rfl <;> decide)
 /-- the next callback launches job 1 (hypothesis of `launch_after_deps`), its dependency job 0 is `done`. -/
-example : ((exS.apply Gen.schedFlags .step).jobs 1).launches > (exS.jobs 1).launches := by decide
-example : ((exS.apply Gen.schedFlags .step).jobs 0).state = .done :=
+example : ((exS.apply flOK .step).jobs 1).launches > (exS.jobs 1).launches := by decide
+example : ((exS.apply flOK .step).jobs 0).state = .done :=
   launch_after_deps (by decide) ⟨exEvs, rfl⟩ .step 1 (by decide) { origin := .job 0, cur := .ok } (by decide) 0 rfl
 /-- hypothesis of `counter_sound` with a non-zero counter: job 1 asleep with one unsatisfied dependency. -/
-example : let s := run Gen.schedFlags (St.init [2]) (exEvs.take 4)
+example : let s := run flOK (St.init [2]) (exEvs.take 4)
     (s.jobs 1).pc = .evtWait ∧ (s.jobs 1).unsat = 1 ∧ (s.jobs 1).deps.map (·.cur) = [.wait, .ok] := by decide
 /-- hypothesis of `done_stable`. -/
 example : (exS.jobs 0).state = .done := by decide
